@@ -39,6 +39,12 @@ def build_matrix(inp):
     ev = numpy.logspace(0, -inp["logcond"], n) * inp["scale"]
     A = (Q * ev) @ Q.T
     A = (A + A.T) / 2
+  elif inp["kind"] == "zeroblock":   # exact zero rows / columns (zero-variance points) anywhere, the first position included, around a PSD block
+    k = max(1, min(n, r))
+    B = rng.normal(size=(k, int(rng.randint(1, k + 1)))) * inp["scale"]
+    pos = sorted(rng.choice(n, size=k, replace=False).tolist()) if inp["seed"] % 3 else list(range(n - k, n))
+    A = numpy.zeros((n, n))
+    A[numpy.ix_(pos, pos)] = B @ B.T
   else:  # kernel Gram matrix with repeated points
     pts = rng.uniform(0, 1, size=(max(n - inp["repeats"], 1), 2))
     pts = numpy.vstack([pts] + [pts[:1]] * (n - len(pts)))
@@ -65,7 +71,26 @@ def oracle(inp):
       model = gp
     numpy.random.seed(inp["seed"])
     N = inp["draws"]
-    S = model.draw_posterior_samples_of_points(N, xs)
+    training = inp.get("entry") == "training" and not inp.get("sum")
+    if training:
+      xs = numpy.array(gp.points_sampled, dtype=float)
+    # a history of operations before the draw that is checked: earlier draws at the same points, then new data (the factor must be
+    # the one of the CURRENT posterior covariance)
+    for step in inp.get("steps") or []:
+      if step == "draw":
+        model.draw_posterior_samples(7) if training else model.draw_posterior_samples_of_points(7, xs)
+      elif step == "append_lie":
+        model.append_lie_data(numpy.array(inp["extra_points"], dtype=float))
+      elif step == "update" and not inp.get("sum"):
+        from libsigopt.compute.misc.data_containers import HistoricalData
+        hd = HistoricalData(gp.dim)
+        hd.append_historical_data(numpy.vstack([gp.points_sampled, numpy.array(inp["extra_points"], dtype=float)]),
+                                  numpy.concatenate([gp.points_sampled_value, numpy.array(inp["extra_values"], dtype=float)]),
+                                  numpy.concatenate([gp.points_sampled_noise_variance, numpy.full(len(inp["extra_points"]), 1e-3)]))
+        gp.update_historical_data(hd)
+    if training and inp.get("steps") and not inp.get("sum"):
+      xs = numpy.array(gp.points_sampled, dtype=float)
+    S = model.draw_posterior_samples(N) if training else model.draw_posterior_samples_of_points(N, xs)
     mean, cov = model.compute_mean_of_points(xs), model.compute_covariance_of_points(xs)
     sd = numpy.sqrt(numpy.maximum(numpy.diag(cov), 0))
     tol_mean = 6 * sd / numpy.sqrt(N) + 1e-6 * (1 + numpy.abs(mean))
@@ -88,12 +113,19 @@ def oracle(inp):
 
 
 def gen_input(rng, samples_ok):
-  if samples_ok and rng.random() < 0.08:
+  if samples_ok and rng.random() < 0.1:
     gi = gpgen.gen_gp_input(rng, well_conditioned=True, allow_multitask=False, max_n=6)
+    dim = len(gi["points"][0])
+    if rng.random() < 0.4:     # noise-free history, with or without a nugget standing in for the noise
+      gi["noise"] = [0.0] * len(gi["noise"])
+      gi["tikhonov"] = rng.choice([1e-3, 0.05, 0.05])
+    k = rng.randint(1, 2)
     return dict(kind="samples", gp=gi, seed=rng.randrange(10 ** 6), draws=4000, repeat_point=rng.random() < 0.4,
-                sum=[rng.uniform(0.2, 0.8), rng.uniform(0.2, 0.8)] if rng.random() < 0.4 else None)
+                sum=[rng.uniform(0.2, 0.8), rng.uniform(0.2, 0.8)] if rng.random() < 0.3 else None,
+                entry=rng.choice(["of_points", "of_points", "training"]), steps=rng.choice([[], [], ["draw"], ["draw", "append_lie"], ["draw", "update"]]),
+                extra_points=[[rng.uniform(0, 1) for _ in range(dim)] for _ in range(k)], extra_values=[rng.uniform(-1, 1) for _ in range(k)])
   n = rng.randint(1, 9)
-  kind = rng.choice(["lowrank", "lowrank", "illcond", "gram"])
+  kind = rng.choice(["lowrank", "lowrank", "illcond", "gram", "zeroblock"])
   return dict(kind=kind, n=n, rank=rng.randint(0, n), seed=rng.randrange(10 ** 6), order=rng.choice(["C", "F"]), scale=10.0 ** rng.randint(-4, 4),
               logcond=rng.choice([2, 8, 14, 18]), repeats=rng.randint(0, max(0, n - 1)))
 
